@@ -288,7 +288,7 @@ Ltac lit_steps :=
 
 Lemma null_accepted : forall st p, begin_mode st -> push_value JNull st = Some p -> run st (bs "null") = Some p.
 Proof.
-  intros st p Hb Hp. cbn [bs N_of_ascii N_of_digits N.add N.mul]. cbn [run].
+  intros st p Hb Hp. change (bs "null") with [110; 117; 108; 108]. cbn [run].
   rewrite step_begin; [|exact Hb|reflexivity|discriminate].
   rewrite step_beginvalue_nospace by reflexivity. cbn [N.eqb Pos.eqb]. rewrite lit_mode_eq.
   lit_steps. rewrite (push_value_same JNull _ st) by reflexivity. rewrite Hp. reflexivity.
@@ -296,7 +296,7 @@ Qed.
 
 Lemma true_accepted : forall st p, begin_mode st -> push_value (JBool true) st = Some p -> run st (bs "true") = Some p.
 Proof.
-  intros st p Hb Hp. cbn [bs N_of_ascii N_of_digits N.add N.mul]. cbn [run].
+  intros st p Hb Hp. change (bs "true") with [116; 114; 117; 101]. cbn [run].
   rewrite step_begin; [|exact Hb|reflexivity|discriminate].
   rewrite step_beginvalue_nospace by reflexivity. cbn [N.eqb Pos.eqb]. rewrite lit_mode_eq.
   lit_steps. rewrite (push_value_same (JBool true) _ st) by reflexivity. rewrite Hp. reflexivity.
@@ -304,7 +304,7 @@ Qed.
 
 Lemma false_accepted : forall st p, begin_mode st -> push_value (JBool false) st = Some p -> run st (bs "false") = Some p.
 Proof.
-  intros st p Hb Hp. cbn [bs N_of_ascii N_of_digits N.add N.mul]. cbn [run].
+  intros st p Hb Hp. change (bs "false") with [102; 97; 108; 115; 101]. cbn [run].
   rewrite step_begin; [|exact Hb|reflexivity|discriminate].
   rewrite step_beginvalue_nospace by reflexivity. cbn [N.eqb Pos.eqb]. rewrite lit_mode_eq.
   lit_steps. rewrite (push_value_same (JBool false) _ st) by reflexivity. rewrite Hp. reflexivity.
